@@ -250,6 +250,15 @@ impl Runner {
             "splice" => self.splice(s),
             "vn" => self.version_negotiation(s),
             "mitm" => self.install_mitm(s),
+            "pollx" => {
+                // debugging aid: one explicit poll_transmit with the outcome logged either way
+                let n = s["n"].as_u64().unwrap() as usize;
+                let c = s["c"].as_u64().unwrap_or(0) as usize;
+                let some = self.w.poll_transmit_once(n, c);
+                let t = self.w.now_us;
+                let p = self.w.probe(n, c);
+                self.w.log(json!({"ev":"PollX","t":t,"n":n,"c":c,"some":some,"post":p}));
+            }
             "spurious" => {
                 // harmless extra calls on a connection
                 let n = s["n"].as_u64().unwrap() as usize;
